@@ -14,7 +14,7 @@ TECHNIQUE = "runtime monitor: icontract class invariants on the real parameter c
 RULE = ("seeded random operation sequences (12-60 ops) on trees of depth <= 4: construct under a parent (valid / "
         "invalid defaults, bad specs, duplicate keys) or detached + add, set_value with valid / out-of-range / "
         "wrong-type / NaN / inf / bool / quantity values through the object and through DSOLModel.set_parameter, "
-        "get / remove by dotted key, duplicate adds; non-trivial = the sequence contains >=1 rejected set, >=1 "
+        "get / remove by dotted key (half of the removes directly on the sub-map after the key was resolved through root and model), duplicate adds; non-trivial = the sequence contains >=1 rejected set, >=1 "
         "accepted set, >=1 rejected construction under a parent and >=1 remove or model-level round trip; distinct = "
         "canonical sequence hash")
 ASSUMPTIONS = ["bool is accepted where int/float is declared (bool is a subclass of int) - either outcome is accepted",
@@ -531,8 +531,20 @@ def run_case(case, ctx):
                 ppath = op["path"].rpartition(".")[0]
                 parent = root.find(ppath)
                 ctx.count("removes")
+                direct = opi % 2 == 0 and parent is not root
                 try:
-                    got = root_obj.remove(op["path"])
+                    if direct:
+                        # the sub-map is a public object too: resolve the dotted key through the ancestors first, then
+                        # change the sub-map directly - the ancestors must not keep answering from what they resolved before
+                        root_obj.get(op["path"])
+                        try:
+                            model.get_parameter(op["path"])
+                        except Exception:
+                            pass
+                        ctx.count("removes_directly_on_a_sub_map")
+                        got = parent.obj.remove(node.key)
+                    else:
+                        got = root_obj.remove(op["path"])
                 except InvariantBroken:
                     raise
                 except Exception as e:
@@ -545,9 +557,17 @@ def run_case(case, ctx):
                 flags["rm_or_model"] += 1
                 try:
                     root_obj.get(op["path"])
-                    ctx.viol("removed-still-retrievable", {"op_index": opi, "op": op})
+                    ctx.viol("removed-still-retrievable", {"op_index": opi, "op": op, "removed_directly_on_sub_map": direct})
                     return
                 except KeyError:
+                    pass
+                try:
+                    model.get_parameter(op["path"])
+                    ctx.viol("removed-still-retrievable:model", {"op_index": opi, "op": op, "removed_directly_on_sub_map": direct})
+                    return
+                except InvariantBroken:
+                    raise
+                except Exception:
                     pass
             elif name == "dupadd":
                 node = root.find(op["path"])
